@@ -518,11 +518,15 @@ int World::execute()
 
 World::~World()
 {
+	// the scenario ended with `Q`; packets the destructors still send (EOF of open connections,
+	// resets of connections queued at an acceptor) may pass probes: not part of the trace
+	g_teardown = true;
 	net.reset();
 	timers.clear();
 	nodes.clear();
 	sim.reset();
 	cfg.reset();
+	g_teardown = false;
 	if (!pcap_path.empty())
 	{
 		// the capture is complete once the simulation (and its pcap object) is gone
